@@ -46,7 +46,7 @@ def make_name(namer, level_idx, idx):
 
 @st.composite
 def trees(draw, max_levels=4, max_leaves=12, min_levels=1, allow_odd=True,
-          min_top=1, mappers=True):
+          min_top=1, mappers=True, min_leaves=1):
     """random uniform-depth taxonomy built by construction:
     choose level widths (non-decreasing), then a surjective parent assignment"""
     n_levels = draw(st.integers(min_levels, max_levels))
@@ -55,6 +55,7 @@ def trees(draw, max_levels=4, max_leaves=12, min_levels=1, allow_odd=True,
     lo = min_top
     for i in range(n_levels):
         if i == n_levels - 1:
+            lo = max(lo, min_leaves)
             w = draw(st.integers(lo, max(lo, max_leaves)))
         elif bias == 'chain':
             w = draw(st.integers(lo, lo + 1))
@@ -64,7 +65,7 @@ def trees(draw, max_levels=4, max_leaves=12, min_levels=1, allow_odd=True,
             w = max(1, min_top)
         else:
             w = draw(st.integers(lo, max(lo, min(lo + 3, max_leaves))))
-        w = min(w, max_leaves)
+        w = min(w, max(max_leaves, min_leaves))
         w = max(w, lo)
         widths.append(w)
         lo = w
